@@ -227,5 +227,9 @@ theorem inv_init : Inv init := by
   constructor <;> simp [init, cnt, holdsLock, shutHolds, closeHolds, shutClosed, closeClosed, inMap, counted,
     Local.default, closeSwept]
 
+theorem inv_initNoLimit : Inv initNoLimit := by
+  constructor <;> simp [initNoLimit, cnt, holdsLock, shutHolds, closeHolds, shutClosed, closeClosed, inMap, counted,
+    Local.default, closeSwept]
+
 end C11
 end FwdVerif
